@@ -103,7 +103,7 @@ EXPORT errno_t _wcsset_s_chk(wchar_t *restrict dest, rsize_t dmax, const wchar_t
     }
 #ifdef SAFECLIB_STR_NULL_SLACK
     /* null slack to clear any data */
-    if (!*dest)
+    if (dmax && !*dest) /* dmax == 0: dest points behind the buffer now */
         memset(dest, 0, dmax * sizeof(wchar_t));
 #endif
 
